@@ -123,6 +123,11 @@ impl ChunkSerializer {
             iteration = iteration + 1;
         }
 
+        // A message without a payload still has to be sent, as a single chunk with only a header
+        if slices.is_empty() {
+            slices.push(&message.data[0..0]);
+        }
+
         for (idx, slice) in slices.into_iter().enumerate() {
             self.add_chunk(
                 &mut bytes,
